@@ -80,6 +80,15 @@ CLAIMS.update({
         text="Two system contexts built by the real NewModuleConfig().toSysContext(): every host source the default configuration does not replace (time.now, sleep, OS entropy) is an unconstrained symbol or cuts the path in the executor, "
              "so equality of the two contexts' readings is non-interference: wall clock and monotonic clock equal the documented fixed sequence for the first 3 readings, random bytes are equal, no args/environ, "
              "stdin empty, stdout discards, nothing pre-opened. math/rand's generator is executed from source (seed 42); readings beyond the third and whole-guest traces are outside the claim."),
+    "C04": dict(level="model_checking", engine="gosym", technique=E1_TECH, design_ref="DESIGN.md §5 C04",
+        text="Constant-expression capture: for every value type, any initial and live value and both kinds of exporting engine (globals kept by the engine or not), GlobalInstance.initialize and executeConstExpressionI32 "
+             "capture the imported global's current value; what validateConstExpression accepts names an in-range global of the expected type / in-range function. Through the real pipeline on the interpreter: a grid of "
+             "exporter/importer memory limits and global types/mutabilities is accepted exactly per the import-matching relation, and afterwards stores, memory.grow and global.set through one instance are observed through the other "
+             "(all addresses/values symbolic). Table and function imports, failed-instantiation rollback (see C10) and the compiler side are outside this claim."),
+    "C11": dict(level="model_checking", engine="gosym", technique=E1_TECH, design_ref="DESIGN.md §5 C11",
+        text="Two instances of one compiled module (active data segment, mutable global, table with an element) through the real pipeline on the interpreter: after one arbitrary mutating call on the first "
+             "(store / global.set / memory.grow / memory.fill / table.set with symbolic operands), the second instance's memory at a symbolic address, global, memory size and table element are exactly as freshly instantiated. "
+             "File descriptors/stdio isolation and the compiler side are outside this claim."),
 })
 
 NOT_APPLICABLE = {
